@@ -363,7 +363,7 @@ def run_many(names, timeout=60):
         f = open(os.path.join(tmp, n + '.out'), 'w')
         procs.append((n, f, subprocess.Popen(
             [sys.executable, os.path.abspath(__file__), '--one', n], stdout=f, stderr=subprocess.DEVNULL,
-            stdin=subprocess.DEVNULL, start_new_session=True, env=dict(os.environ, PYTHONPATH=HERE))))
+            stdin=subprocess.DEVNULL, start_new_session=True, env=dict(os.environ, PYTHONPATH=os.environ.get('VERIF_REPO', '/repo') + os.pathsep + HERE))))
     out = []
     deadline = time.time() + timeout
     for n, f, p in procs:
